@@ -370,6 +370,9 @@ func decodeSpec(f *Form, p *parsedForm, spec hcldec.Spec, partial bool, extras [
 	v, remain, d := hcldec.PartialDecode(p.body(f), spec, &hcl.EvalContext{})
 	res.cv = v
 	if remain != nil {
+		// the usual order of use: which variables does the rest refer to, then decode it.
+		// Looking at a body does not change it.
+		_ = hcldec.Variables(remain, extraSpec(extras))
 		xv, d2 := hcldec.Decode(remain, extraSpec(extras), &hcl.EvalContext{})
 		d = append(d, d2...)
 		res.xv = xv
@@ -394,6 +397,8 @@ func decodeTags(f *Form, p *parsedForm, lay *goLayout, partial bool, extras []st
 		res.xg = target.Elem().Field(lay.remain) // gohcl decoded the remaining body itself
 	} else if partial {
 		if remain, ok := target.Elem().Field(lay.remain).Interface().(hcl.Body); ok && remain != nil {
+			// decoded twice, as a caller that first validates and then loads would
+			gohcl.DecodeBody(remain, &hcl.EvalContext{}, reflect.New(extraGo(extras)).Interface())
 			x := reflect.New(extraGo(extras))
 			d2 := gohcl.DecodeBody(remain, &hcl.EvalContext{}, x.Interface())
 			d = append(d, d2...)
